@@ -84,6 +84,29 @@ func Inject(ifi *config.Interface, s *State, epoch time.Time) {
 	}
 }
 
+// Prepare binds the interface's plugins to the state the way the daemon does: through
+// every plugin's real Prepare (address and route sources come from the NewAddresser
+// seam, the hardware address from the interface value) - only the clock, which Prepare
+// takes from time.Now, is then pointed at the state's clock.
+func Prepare(ifi *config.Interface, s *State, epoch time.Time) error {
+	system.VerifSetAddresser(Addresser{S: s})
+	defer system.VerifSetAddresser(nil)
+	nif := &net.Interface{Index: 1, Name: ifi.Name, HardwareAddr: s.HW()}
+	now := func() time.Time { return epoch.Add(s.Clock) }
+	for _, p := range ifi.Plugins {
+		if err := p.Prepare(nif); err != nil {
+			return err
+		}
+		switch p := p.(type) {
+		case *plugin.Prefix:
+			p.TimeNow = now
+		case *plugin.Route:
+			p.TimeNow = now
+		}
+	}
+	return nil
+}
+
 func IP(addr string, flags string) system.IP {
 	x := system.IP{Address: netip.MustParsePrefix(addr)}
 	for _, c := range flags {
